@@ -280,7 +280,10 @@ def fixed_cases():
 
 def parts(tier):
     q = tier == "quick"
-    return [
+    from ..fuzzpart import make_part
+
+    extra = [] if q else [make_part(ID, 60000)]
+    return extra + [
         {"name": "corpus", "kind": "fixed", "cases": fixed_cases},
         {"name": "documents", "kind": "hypothesis", "strategy": s_doc, "examples": 2500 if q else 16 * 15000},
         {"name": "ssc-chart-texts", "kind": "hypothesis", "strategy": s_chartdoc, "examples": 1200 if q else 16 * 6000},
